@@ -34,6 +34,7 @@ SHARD_TIMEOUT = {'quick': 1500, 'thorough': 4500}
 CASES = {'quick': 400, 'thorough': 8000}
 BUDGET = {'quick': 50, 'thorough': 420}
 NSHARDS = 16
+WALL = {'quick': 1100, 'thorough': 3600}          # wall-clock safety net per shard (the budget itself is CPU time)
 HV = dict(heavy=True)
 
 # ---- parameter generators ------------------------------------------------------------------------
@@ -957,7 +958,7 @@ def shards(tier, seed):
     # VERIF_BUDGET_SCALE (default 1) scales the per-shard CPU budget; used only to self-validate on a shared, loaded machine
     import os
     scale = float(os.environ.get('VERIF_BUDGET_SCALE', '1') or 1)
-    return [{'n': CASES[tier], 'nshards': NSHARDS, 'budget_s': BUDGET[tier] * scale} for _ in range(NSHARDS)]
+    return [{'n': CASES[tier], 'nshards': NSHARDS, 'budget_s': BUDGET[tier] * scale, 'wall_s': WALL[tier]} for _ in range(NSHARDS)]
 
 
 def run_shard(shard, rec):
